@@ -217,3 +217,52 @@ Proof.
   - intros [g [Hin Hout]]. apply (iter_cons f a1 b1 [a2] [b2] g v); [|exact Hout].
     intros x Hx. apply (iter_1d (fun xs => f (x :: xs))). apply Hin. exact Hx.
 Qed.
+
+(* ------------------------------------------------------------------ the order of integration does not matter (polynomials) *)
+(* A consequence of Fubini's theorem that can be proved without it: integrating a polynomial with the first two variables
+   in the other order (x2 outermost, then x1, then the rest) yields the same number. *)
+Definition swap2 {A} (l : list A) : list A := match l with x :: y :: r => y :: x :: r | _ => l end.
+Definition swap_mp (p : mpoly) : mpoly := map (fun m => (fst m, swap2 (snd m))) p.
+
+Lemma mono_evalR_swap es xs : mono_evalR (swap2 es) xs = mono_evalR es (swap2 xs) \/ (length es < 2)%nat \/ (length xs < 2)%nat.
+Proof.
+  destruct es as [|e1 [|e2 es]]; [right; left; simpl; lia | right; left; simpl; lia |].
+  destruct xs as [|x1 [|x2 xs]]; [right; right; simpl; lia | right; right; simpl; lia |].
+  left. cbn [swap2 mono_evalR]. ring.
+Qed.
+
+Lemma mp_evalR_swap p xs : List.Forall (fun m => (2 <= length (snd m))%nat) p -> (2 <= length xs)%nat ->
+  mp_evalR (swap_mp p) xs = mp_evalR p (swap2 xs).
+Proof.
+  intros Hp Hx. induction Hp as [|[c es] p Hm _ IH]; [reflexivity|]. cbn [swap_mp map mp_evalR fst snd] in *.
+  fold (swap_mp p). rewrite IH. destruct (mono_evalR_swap es xs) as [E|[E|E]]; [rewrite E; reflexivity | lia | lia].
+Qed.
+
+Lemma mono_int_swap es a b : (2 <= length es)%nat -> (2 <= length a)%nat -> (2 <= length b)%nat ->
+  (mono_int (swap2 es) (swap2 a) (swap2 b) = mono_int es a b)%Qc.
+Proof.
+  destruct es as [|e1 [|e2 es]]; simpl; try lia. destruct a as [|a1 [|a2 a]]; simpl; try lia.
+  destruct b as [|b1 [|b2 b]]; simpl; try lia. intros _ _ _. ring.
+Qed.
+
+Theorem polynomial_integration_order_irrelevant p a b : length a = length b -> (2 <= length a)%nat ->
+  List.Forall (fun m => length (snd m) = length a) p ->
+  is_iter_int (mp_evalR p) (map QcR a) (map QcR b) (QcR (mp_int p a b)) /\
+  is_iter_int (fun xs => mp_evalR p (swap2 xs)) (swap2 (map QcR a)) (swap2 (map QcR b)) (QcR (mp_int p a b)).
+Proof.
+  intros Hab Hn Hwf. split; [apply formal_integral_is_iterated_riemann; assumption|].
+  assert (Hwf2 : List.Forall (fun m => (2 <= length (snd m))%nat) p).
+  { eapply List.Forall_impl; [|exact Hwf]. intros m Hm. cbn beta in Hm. lia. }
+  assert (Hsw : forall (l : list Qc), map QcR (swap2 l) = swap2 (map QcR l)) by (intros [|x [|y l]]; reflexivity).
+  assert (Hlen : forall A (l : list A), length (swap2 l) = length l) by (intros A [|x [|y l]]; reflexivity).
+  assert (Eint : mp_int (swap_mp p) (swap2 a) (swap2 b) = mp_int p a b).
+  { unfold mp_int. clear Hwf2. induction Hwf as [|[c es] p Hm _ IH]; [reflexivity|].
+    cbn [swap_mp map sumQ fst snd] in *. fold (swap_mp p). rewrite IH. f_equal. f_equal.
+    apply mono_int_swap; lia. }
+  rewrite <- Eint, <- !Hsw.
+  apply (iter_ext_len (mp_evalR (swap_mp p))).
+  - intros xs Hl. apply mp_evalR_swap; [exact Hwf2|]. rewrite Hl, map_length, Hlen. exact Hn.
+  - apply formal_integral_is_iterated_riemann; rewrite ?Hlen; [exact Hab|].
+    unfold swap_mp. apply List.Forall_forall. intros m Hin. apply in_map_iff in Hin. destruct Hin as [m0 [<- Hin0]]. cbn [snd].
+    rewrite Hlen. rewrite List.Forall_forall in Hwf. exact (Hwf m0 Hin0).
+Qed.
